@@ -104,7 +104,11 @@ def gen_package_json(rnd):
             key = rnd.choice(NPM_NAMES)
             k = rnd.random()
             if k < 0.6:
-                entries.append((key, ('range', rnd.choice(RANGES))))
+                rg = rnd.choice(RANGES)
+                if rnd.random() < 0.15:
+                    # blanks inside the quotes, around the range (node-semver trims them; the token is still the whole string)
+                    rg = rnd.choice([' ', '  ', '']) + rg + rnd.choice(['', ' '])
+                entries.append((key, ('range', rg)))
             elif k < 0.72:
                 tgt = rnd.choice(NPM_NAMES)
                 entries.append((key, ('alias', tgt, None if rnd.random() < 0.3 else rnd.choice(RANGES))))
